@@ -3,7 +3,7 @@ import random
 import struct
 
 from .. import core, fatspec, gen, history
-from ..core import Model
+from ..core import Model, ImplRun
 from . import _hist, C10
 
 LEVEL_NOTE = ("theorem C11_bracket about the model's session log (mount ++ ops ++ close): every proper prefix leaves a mark or only boot-sector "
@@ -54,6 +54,16 @@ def check_session(ctx, label, img0, writes, final, meta, how, rep):
         cur[pos:pos + len(data)] = data
         if i == n - 1:
             break
+        if marks(cur, v) and (i < 6 or i % 16 == 0 or i >= n - 5):
+            # "mounting a volume that carries a mark emits the unclean-unmount warning": the intermediate states around the marking at mount
+            # and the un-marking at close, and a sample in between, are mounted (read-only)
+            ctx.dist["intermediate-mounts"] += 1
+            ir2 = ImplRun(bytes(cur), read_only=True)
+            r2, _ = ir2.mount()
+            if r2[0] == "ok" and not ir2.dirty_warned():
+                ctx.violation(f"{label}/{how}: the device state after write {i + 1} of {n} carries a dirty mark, but mounting it gives no unclean-unmount warning",
+                              f"marked-no-warning:ft{v.ft}:nf{v.nfats}", dict(rep, write_index=i, offset=pos, length=len(data)))
+                return
         if not marks(cur, v):
             if not equal_outside(bytes(cur), final, br):
                 ctx.violation(f"{label}/{how}: after write {i + 1} of {n} (offset {pos}, {len(data)} bytes) the device carries no dirty mark but is not complete",
